@@ -3,9 +3,10 @@ import SevenZ.Driver.Prim
 import SevenZ.Driver.Header
 import SevenZ.Driver.Path
 import SevenZ.Driver.Decode
+import SevenZ.Driver.Reader
 open SevenZ.Driver
 
-def handlers : List (String → List String → Option String) := [primHandler, headerHandler, pathHandler, decHandler]
+def handlers : List (String → List String → Option String) := [primHandler, headerHandler, pathHandler, decHandler, readerHandler]
 
 def step (line : String) : String :=
   match (line.trimAscii.toString.splitOn " ").filter (· ≠ "") with
